@@ -160,6 +160,7 @@ def plan_c06(ck, prop, tier, seed, replay, t0):
     records = []
     diagnostics = {}
     tool_stats = {}
+    tool_cov = {}
     for r in results:
         tool = r["tool"].split("_")[0]
         st = tool_stats.setdefault(tool, dict(shards=0, evaluations=0, wall_s=0.0, reports=0))
@@ -198,6 +199,11 @@ def plan_c06(ck, prop, tier, seed, replay, t0):
                 else:
                     summary["inconclusive"].append("shard %s exited with %s without a summary or a checker report: %s" % (r["tool"], rc, r["out"][-300:].replace("\n", " | ")))
         summary = dict(summary)
+        # required coverage is judged on the union of a tool's shards (below), not per shard
+        summary["inconclusive"] = [x for x in summary["inconclusive"] if not x.startswith("required coverage class never observed")]
+        for k, v in summary.get("coverage", {}).items():
+            agg = tool_cov.setdefault(tool, {})
+            agg[k] = agg.get(k, 0) + v
         summary["violations"] = list(summary["violations"]) + synth
         kinds = dict(summary["violation_kinds"])
         for v in synth:
@@ -210,6 +216,13 @@ def plan_c06(ck, prop, tier, seed, replay, t0):
             if isinstance(v["witness"], dict):
                 v["witness"].setdefault("shard", r["tool"])
         records.append(dict(build=r["tool"], rc=0 if isinstance(rc, int) and rc in (0, 1, 97) or synth else rc, out=r["out"], wall=r["wall"], summary=summary, cmd=r["cmd"]))
+    # non-vacuity per tool: every op family must have run under it
+    required = ["family.stripe_score", "family.striped_histories", "family.encode", "family.max_threshold", "family.scanner", "family.sampler", "family.dense", "family.misc"]
+    if not only_shard:
+        for tool, cov in tool_cov.items():
+            missing = [k for k in required if cov.get(k, 0) == 0 and not (tool == "miri" and k == "family.max_threshold")]
+            if missing and records:
+                records[0]["summary"]["inconclusive"].append("tool %s never ran the op families %s" % (tool, missing))
     # evidence wants evaluations summed over the tools and the distinct count of one tool
     extra = dict(tools=tool_stats, miri_diagnostics_not_verdicts=diagnostics)
     rc = ck.finish(prop, tier, seed, records, t0, replay_of=replay, extra_observed=extra, compact_builds=True)
